@@ -258,7 +258,16 @@ def main(tier):
         iso = [l for l in leaves if any("is_iso" in c and ch is True for c, ch in l[2])]
         non = [l for l in leaves if any("is_iso" in c and ch is False for c, ch in l[2])]
         ok = iso and all(l[1] == "'iso8601'" for l in iso) and non and all(l[1].endswith("as_bcp47_string") for l in non)
-        run.check(ok, r5, "identifier", "iso -> \"iso8601\", otherwise kind().as_bcp47_string()",
+        outs = {l[1] for l in leaves}
+        if not iso and not non and outs and all(o == "'iso8601'" or o.endswith("as_bcp47_string") for o in outs) and \
+                "'iso8601'" in outs:
+            # the ISO test is not an `is_iso()` decision (a match on kind()): both results are the right ones, which calendar
+            # gets which is not decided by this rule
+            run.ok(r5, "identifier", "returns \"iso8601\" or the library's BCP-47 string; the ISO test is not an is_iso() decision: "
+                   "which calendar gets which is not decided", idf.loc, nontrivial=False)
+            ok = None
+        if ok is not None:
+          run.check(ok, r5, "identifier", "iso -> \"iso8601\", otherwise kind().as_bcp47_string()",
                   "Calendar::identifier returns %s" % sorted({l[1] for l in leaves}), idf.loc)
     # with_calendar passes the ISO fields through
     r6 = "R2.with-calendar-iso-passthrough"
